@@ -32,6 +32,16 @@ PROPS = {
         "level_note": "Trusted: Coq kernel, tools/extract_facts.py (regex/brace reader of `impl Version/KeyType/SealingKey` const items and of the header constants named in each Display/FromStr; failure to extract is reported as a broken tie). Key-length and header-rewrite clauses are decided with C08 / C06 and re-stated there.",
         "trusted": ["translator tools/extract_facts.py (headers inventory)"],
     },
+    "C11": {
+        "coq": "C11.v",
+        "harness": "c11",
+        "gen": [],
+        "design_ref": "DESIGN.md §8 C11",
+        "technique": "Rocq proof (iff-characterisation of every built-in validator and combinator; pipeline theorem) + model/implementation correspondence on dynamically built validator expressions",
+        "level_text": "Machine-checked: unseal returns claims only if validate accepted exactly those claims and otherwise returns the validator's error; Time / TimeWithLeeway accept iff (no exp or exp >= now - leeway) and (no nbf or nbf <= now + leeway) for all representable now±leeway; HasExpiry, ForSubject, FromIssuer, ForAudience, NoValidation, and_then, slices, Vec, Box/Rc/Arc, map are exact. The model is compared with the real validators (Box<dyn Validate> built from every combinator) and with the statement's inequalities written directly in the harness; the pipeline runs on all six backends.",
+        "level_note": "Trusted: Coq kernel; jiff's Timestamp ordering and checked arithmetic (modelled as Z with the MIN/MAX range pinned against jiff on every run); the projection used with map is one of three fixed pure functions (identity, drop exp, swap iss/sub).",
+        "trusted": ["jiff::Timestamp comparison and ±Duration (modelled as Z, range constants pinned at run time)"],
+    },
     "C15": {
         "coq": "C15.v",
         "harness": "c15",
